@@ -291,6 +291,14 @@ class MailboxWorld:
         self.sim.on_end_made = self._end_made
         self.sim.fault_events = self._fault_events
         self.extra_app_events = None
+        # Autobahn keeps dispatching frames it has already buffered (same TCP
+        # segment) after wormhole asked the transport to close: in a third of
+        # the runs in-flight messages may still be delivered between
+        # loseConnection() and connectionLost
+        if self.opts.get("read_after_lose", True) and \
+                self.tape.choose(3, "ral") == 0:
+            self.sim.net.read_after_lose = True
+            self.sim.note("probe.frames_dispatched_after_loseConnection")
         self.unwelcome_done = False
         self._planned = []
         self.port_down = False
@@ -616,6 +624,11 @@ class MailboxWorld:
                                 lambda l=link: self._f_cut(l, ("c",))))
                     evs.append(("half_open_s:" + lab,
                                 lambda l=link: self._f_cut(l, ("s",))))
+                if "ws_close" in kinds and c_end.made and s_end.made and \
+                        getattr(s_end.protocol, "opened", False) and \
+                        not getattr(s_end.protocol, "closing", False):
+                    evs.append(("ws_close:" + lab,
+                                lambda l=link: self._f_ws_close(l)))
                 if "stall" in kinds and c_end.made and s_end.made:
                     # one direction stops draining for a while (data stays in
                     # flight; a later cut loses it)
@@ -710,6 +723,33 @@ class MailboxWorld:
         st["tick"] = tick
         return tick
 
+    def plan_downlink_stall(self, victim, t1, t2):
+        """Planned fault: from simulator event t1 to t2 `victim` does not
+        read its established connection (the server's replies wait in flight:
+        a slow or busy client). Returns the per-step tick."""
+        st = {"phase": 0, "end": None}
+        self._planned.append(st)
+
+        def tick():
+            if st["phase"] == 0 and self.sim.steps >= t1:
+                for link in self.ws_links(victim):
+                    p = link.ends[0].protocol
+                    p = getattr(p, "_wrappedProtocol", p)
+                    if getattr(p, "opened", False):
+                        link.ends[0].stalled = True
+                        st["phase"], st["end"] = 1, link.ends[0]
+                        self.sim.note("fault.downlink_stall")
+                        self.faults_fired.append((self.sim.steps,
+                                                  "downlink_stall:%d" %
+                                                  link.serial))
+                        break
+            elif st["phase"] == 1 and (self.sim.steps >= t2 or
+                                       st.get("finish")):
+                st["phase"] = 2
+                st["end"].stalled = False
+        st["tick"] = tick
+        return tick
+
     def _spend(self, what):
         self.fault_budget -= 1
         self.faults_fired.append((self.sim.steps, what))
@@ -718,6 +758,12 @@ class MailboxWorld:
         self._spend("cut%s:%d" % ("" if len(tell) == 2 else "_" + tell[0],
                                   link.serial))
         self.sim.net.cut(link, tell)
+
+    def _f_ws_close(self, link):
+        self._spend("ws_close:%d" % link.serial)
+        p = link.ends[1].protocol
+        p = getattr(p, "_wrappedProtocol", p)
+        p.send_close_frame()
 
     def _f_stall(self, end, tag):
         if end.stalled:
